@@ -15,8 +15,13 @@ executed on the real parser (a fresh `ArgumentParser` with one `--k` argument pe
                        decides exactly as without one, its results conform, and a parse that does not mention the
                        key succeeds with a conforming value  (`judge_default`; cases carry a "default" key).
 
+  (v)   kind soundness  a string-free value of a wrong kind at some position (object channel; JSON list / mapping text
+                       on argv for container types) is rejected even if coercion would make the result conform;
+                       restricted strings are str: no non-string is of their kind.
+
 A *case* is {"type": spec, "channel": "object" | "argv", "value": value-spec}; `run_case` rebuilds everything
-(type objects, parsers, values) from it.  Type specs are JSON: a leaf name or [constructor, arg, ...].
+(type objects, parsers, values) from it.  Type specs are JSON: a leaf name or [constructor, arg, ...];
+["Tuple", a1, ..., an] is the fixed-length tuple of arity n (n = 0: Tuple[()], explored for n in 0..3).
 """
 from __future__ import annotations
 
@@ -70,13 +75,18 @@ LITERALS = {"L1": ["a", 1, None], "L2": ["1", "null", 2], "L3": [True, 0]}
 
 CORE = ["str", "int", "float", "bool", "E"]
 EXTRA = [
-    "EY", "L1", "L2", "L3", "PositiveInt", "ClosedUnitInterval", "RInt", "RFlt", "Email", "RS",
+    "EY", "L1", "L2", "L3", "PositiveInt", "ClosedUnitInterval", "RInt", "RFlt", "NotEmptyStr", "RS",
     "PPath", "Path_fr", "Path_dc", "complex", "Decimal", "UUID", "timedelta", "bytes", "range", "Any",
 ]  # fmt: skip
 ALL_LEAVES = CORE + EXTRA
+# Restricted strings come in two pattern classes: NARROW (RS, Email: the text of no non-string value of the alphabets
+# matches) and WIDE (NotEmptyStr: str() of every non-string value of the alphabets matches, so only the *kind* of the
+# value can make the type reject it).  Email is a second narrow one and is combined with fewer partners ("light").
+LIGHT_LEAVES = ["Email"]
 UNHASHABLE_LEAVES = {"Any", "Path_fr", "Path_dc"}  # jsonargparse.Path defines __eq__ without __hash__
 
 EMAIL_RE = r"^[^@ ]+@[^@ ]+\.[^@ ]+$"
+NES_RE = r"^.*[^ ].*$"
 RS_RE = r"^[A-Z]{2}$"
 
 # conforming inputs per leaf (JSON value specs); the first one is the "template" value
@@ -96,6 +106,7 @@ CONF = {
     "RInt": [2, 4],
     "RFlt": [1.5, -1.0],
     "Email": ["x@y.z"],
+    "NotEmptyStr": ["a", "1", "null", "[1]", "true"],
     "RS": ["AB"],
     "PPath": ["a", "/tmp"],
     "Path_fr": ["/etc/passwd"],
@@ -114,7 +125,8 @@ LISTED_ONLY = {"Path_fr", "Path_dc", "complex", "Decimal", "UUID", "timedelta", 
 LEAF_KIND = {
     "E": "Enum", "EY": "Enum", "L1": "Literal", "L2": "Literal", "L3": "Literal",
     "PositiveInt": "restricted-int", "RInt": "restricted-int", "ClosedUnitInterval": "restricted-float",
-    "RFlt": "restricted-float", "Email": "restricted-str", "RS": "restricted-str", "PPath": "path",
+    "RFlt": "restricted-float", "Email": "restricted-str", "RS": "restricted-str", "NotEmptyStr": "restricted-str",
+    "PPath": "path",
     "Path_fr": "path", "Path_dc": "path", "complex": "registered", "Decimal": "registered", "UUID": "registered",
     "timedelta": "registered", "bytes": "registered", "range": "registered",
 }  # fmt: skip
@@ -143,6 +155,7 @@ def leaf_types():
             "RInt": jt.restricted_number_type("C02Int2to5", int, [(">=", 2), ("<", 5)]),
             "RFlt": jt.restricted_number_type("C02FloatOutside01", float, [("<", 0.0), (">", 1.0)], join="or"),
             "Email": jt.Email,
+            "NotEmptyStr": jt.NotEmptyStr,
             "RS": jt.restricted_string_type("C02AZ2", RS_RE),
             "PPath": pathlib.Path, "Path_fr": jt.Path_fr, "Path_dc": jt.Path_dc,
             "complex": complex, "Decimal": decimal.Decimal, "UUID": uuid.UUID, "timedelta": datetime.timedelta,
@@ -189,6 +202,8 @@ def leaf_conforms(name, r):
         return isinstance(r, str) and re.match(EMAIL_RE, r) is not None
     if name == "RS":
         return isinstance(r, str) and re.match(RS_RE, r) is not None
+    if name == "NotEmptyStr":
+        return isinstance(r, str) and re.match(NES_RE, r) is not None
     if name == "PPath":
         import pathlib
 
@@ -226,6 +241,8 @@ def leaf_shape_ok(name, v):
         return type(v) is str and re.match(EMAIL_RE, v) is not None
     if name == "RS":
         return type(v) is str and re.match(RS_RE, v) is not None
+    if name == "NotEmptyStr":
+        return type(v) is str and re.match(NES_RE, v) is not None
     if name == "PPath":
         return type(v) is str and v != ""
     return typed_in(v, [decode(c) for c in CONF[name]])
@@ -257,6 +274,8 @@ def show(spec):
         return f"Dict[int, {a[0]}]"
     if c == "TupleVar":
         return f"Tuple[{a[0]}, ...]"
+    if c == "Tuple" and not a:
+        return "Tuple[()]"
     return f"{c}[" + ", ".join(a) + "]"
 
 
@@ -308,7 +327,7 @@ def perms(spec):
 
 
 def depth(spec):
-    return 0 if is_leaf(spec) else 1 + max(depth(a) for a in spec[1:])
+    return 0 if is_leaf(spec) else 1 + max([depth(a) for a in spec[1:]], default=0)  # ["Tuple"] = Tuple[()]: depth 1
 
 
 def ctors(spec):
@@ -592,6 +611,8 @@ def admissible(v, spec):
     only differentially): True = of the declared kind, False = of a wrong kind (must be rejected), None = this
     validator does not decide (restricted / registered leaves, exotic keys)."""
     if is_leaf(spec):
+        if LEAF_KIND.get(spec) == "restricted-str":
+            return False  # a restricted string is a str: no string-free object is of that kind, whatever its text matches
         if spec not in ADMISSIBLE_LEAVES:
             return None
         return leaf_shape_ok(spec, v)
@@ -619,6 +640,18 @@ def admissible(v, spec):
         else:
             res = [admissible(x, spec[1]) for x in v]
     return False if False in res else (None if None in res else True)
+
+
+NOT_TYPED = object()
+
+
+def json_container(text):
+    """The list / dict that a JSON text denotes, else NOT_TYPED."""
+    try:
+        x = json.loads(text)
+    except ValueError:
+        return NOT_TYPED
+    return x if isinstance(x, (list, dict)) else NOT_TYPED
 
 
 def nullable(spec):
@@ -656,13 +689,13 @@ def conf(spec, n):
         for m in spec[1:]:
             out += conf(m, max(1, n // 2))
         return out[: max(n, len(spec) - 1)]
+    if c == "Tuple":
+        base = [conf(a, 1)[0] for a in spec[1:]]
+        return [base, {"__tuple__": base}][:n]
     cs = conf(spec[1], 2)
     c1, c2 = cs[0], cs[-1]
     if c in ("List", "TupleVar", "Set"):
         return [[c1], [], [c1, c2]][:n]
-    if c == "Tuple":
-        base = [conf(a, 1)[0] for a in spec[1:]]
-        return [base, {"__tuple__": base}][:n]
     if c == "Dict":
         return [{"a": c1}, {}, {"a": c1, "b": c2}][:n]
     if c == "DictInt":
@@ -721,9 +754,11 @@ def inside(spec, level, prof):
                 t = list(base)
                 t[i] = x
                 out.append(t)
-        out += [base[:-1], base + [base[-1]], base + [None], []]
+        # arity changes: one item less, one more (a conforming item / None), empty
+        more = base[-1] if base else 1
+        out += ([base[:-1]] if base else []) + [base + [more], base + [None], []]
         if level == 0:
-            out.append({"__tuple__": base[:-1]})
+            out.append({"__tuple__": base[:-1] if base else [more]})
         return out
     if c in ("Dict", "DictInt"):
         c1 = conf(spec[1], 1)[0]
@@ -791,6 +826,7 @@ DEFAULTS = {
     "RInt": [2],
     "RFlt": [2.0, -1.0],
     "Email": ["x@y.z"],
+    "NotEmptyStr": ["a", "1"],
     "RS": ["AB"],
     "PPath": [{"__obj__": ["PPath", "a"]}],
     "Path_fr": [{"__obj__": ["Path_fr", "/etc/passwd"]}],
@@ -816,6 +852,8 @@ def defaults_for(spec, n):
         for m in spec[1:]:
             out += defaults_for(m, max(1, n // 2))
         return dedupe(out)
+    if c == "Tuple":
+        return [{"__tuple__": [defaults_for(a, 1)[0] for a in spec[1:]]}][:n]
     ds = defaults_for(spec[1], 2)
     d1, d2 = ds[0], ds[-1]
     if c == "List":
@@ -824,8 +862,6 @@ def defaults_for(spec, n):
         return [{"__set__": [d1]}][:n]
     if c == "TupleVar":
         return [{"__tuple__": [d1]}, {"__tuple__": [d1, d2]}][:n]
-    if c == "Tuple":
-        return [{"__tuple__": [defaults_for(a, 1)[0] for a in spec[1:]]}][:n]
     if c == "Dict":
         return [{"a": d1}, {"a": d1, "b": d2}][:n]
     if c == "DictInt":
@@ -914,6 +950,8 @@ def default_axis(spec, tier):
             return defaults_for(spec, 2 if leaves_of(spec) <= core else 1)
         return defaults_for(spec, 2) if leaves_of(spec) <= core else []
     if spec[0] == "Tuple":
+        if len(spec) != 3:  # other arities: the zero-length tuple and Tuple[A] over a core leaf
+            return defaults_for(spec, 1) if all(a in CORE for a in spec[1:]) and len(spec) < 3 else []
         return defaults_for(spec, 1) if (spec[2] == "int" and spec[1] in CORE) else []
     return defaults_for(spec, 1) if spec[1] in CORE else []
 
@@ -1132,20 +1170,26 @@ def judge(case):
     # (v) kind soundness of the decision for string-free values given as objects: a value of a wrong kind at some
     # position (bool for int, int for bool, float for int, wrong arity, unknown literal ...) must be rejected even
     # when the implementation would coerce it into something that conforms (float(True) == 1.0)
+    # The same for JSON text on argv whose top level is a container given to a container type: its items are typed
+    # values, not config text (a top-level Union / leaf may still take the whole text as a string: not judged).
+    pv, kc = NOT_TYPED, None
     if chan == "object":
-        pv = decode(v)
-        if string_free(pv):
-            adm = admissible(pv, spec)
-            if adm is not None:
-                facts["oracles"].append("kind+" if adm else "kind-")
-                if adm is False and any(bits):
-                    p, o = next((p, o) for p, o in zip(plist, outs) if o["bit"])
-                    devs.append(
-                        (
-                            f"accepts-wrong-kind:{top_kind(spec)}:{vclass(v)}",
-                            f"{show(p)} accepts the object {v!r} (-> {o['result']!r}), which has a wrong kind at some position",
-                        )
+        pv, kc = decode(v), vclass(v)
+    elif not is_leaf(spec) and spec[0] != "Union":
+        pv = json_container(v)
+        kc = "json-text"
+    if pv is not NOT_TYPED and string_free(pv):
+        adm = admissible(pv, spec)
+        if adm is not None:
+            facts["oracles"].append(("kind+" if adm else "kind-") + ("" if chan == "object" else ":argv"))
+            if adm is False and any(bits):
+                p, o = next((p, o) for p, o in zip(plist, outs) if o["bit"])
+                devs.append(
+                    (
+                        f"accepts-wrong-kind:{top_kind(spec)}:{kc}",
+                        f"{show(p)} accepts the {chan} input {v!r} (-> {o['result']!r}), which has a wrong kind at some position",
                     )
+                )
     # escapes (neither success nor ArgumentError) count as rejections here; that they must not happen is C03
     for o in outs:
         if not o["bit"] and o.get("kind") != "ArgumentError":
@@ -1415,6 +1459,22 @@ def grammar(tier):
     group("G1 Optional x all leaves", [["Union", a, "none"] for a in L])
     group("G1 Tuple[A,B]", [["Tuple", a, "int"] for a in L] + [["Tuple", "str", a] for a in L] + [["Tuple", a, b] for a in CORE for b in CORE])
     group("G1 Union pairs x all leaves", [["Union", a, b] for a, b in itertools.combinations(L, 2)])
+    # fixed-length tuples of the other arities: 0 (Tuple[()], whose argument list is EMPTY), 1 and 3
+    T0 = ["Tuple"]
+    group(
+        "G1 Tuple arities 0, 1, 3",
+        [T0] + [["Tuple", a] for a in CORE] + [["Tuple", "int", "str", "bool"], ["Tuple", "str", "float", "int"]]
+        + ([["Tuple", a] for a in EXTRA] if tier == "thorough" else []),
+    )  # fmt: skip
+    # the "light" leaves (second representative of a leaf class): alone, under List / Dict / Optional, with str / int
+    # and with the other members of their class
+    for a in LIGHT_LEAVES:
+        mates = [b for b in ALL_LEAVES if LEAF_KIND.get(b) == LEAF_KIND[a]]
+        group(
+            f"G1 light leaf {a}",
+            [a, ["List", a], ["Dict", a], ["Union", a, "none"]] + [["Union", a, b] for b in ["str", "int"] + mates]
+            + ([[c, a] for c in UNARY] + [["Union", a, b] for b in ALL_LEAVES] if tier == "thorough" else []),
+        )  # fmt: skip
     u3 = ["none", "str", "int", "float", "bool", "E"] + (["L1"] if tier == "thorough" else [])
     group("G1 Union triples", [["Union", a, b, c] for a, b, c in itertools.combinations(u3, 3)])
     # G_2 over the core leaves
@@ -1426,8 +1486,19 @@ def grammar(tier):
     d1 = [norm(s) for s in d1 if well_formed(norm(s))]
     unary2 = UNARY if tier == "thorough" else ("List", "Dict")
     group("G2 unary x depth-1 core", [[c, x] for c in unary2 for x in d1])
-    group("G2 Optional x depth-1 core", [["Union", x, "none"] for x in d1])
-    group("G2 Tuple[X,leaf]", [["Tuple", x, "int"] for x in d1] + ([["Tuple", "str", x] for x in d1] if tier == "thorough" else []))
+    # quick: Optional[Tuple[a,b]] and Tuple[Tuple[a,b],int] only for a, b in {int, str} (thorough: all core pairs;
+    # List[Tuple[a,b]] / Dict[str,Tuple[a,b]] keep all core pairs in both tiers)
+    d1t = d1 if tier == "thorough" else [x for x in d1 if not (x[0] == "Tuple" and not set(x[1:]) <= {"int", "str"})]
+    group("G2 Optional x depth-1 core", [["Union", x, "none"] for x in d1t])
+    group("G2 Tuple[X,leaf]", [["Tuple", x, "int"] for x in d1t] + ([["Tuple", "str", x] for x in d1] if tier == "thorough" else []))
+    # the zero-length tuple as a container element and as a Union member (next to scalars, to tuples of other arities
+    # and to a list: a value that no member accepts must stay rejected)
+    group(
+        "G2 over Tuple[()]",
+        [[c, T0] for c in UNARY] + [["Union", T0, "none"], ["Tuple", T0, "int"], ["Tuple", "str", T0]]
+        + [["Union", T0, a] for a in CORE]
+        + [["Union", T0, x] for x in (["Tuple", "int"], ["Tuple", "int", "int"], ["TupleVar", "int"], ["List", "int"], ["Set", "int"])],
+    )  # fmt: skip
     partners = CORE if tier == "thorough" else ["str", "int"]
     group("G2 Union[X,leaf]", [["Union", x, y] for x in d1 for y in partners])
     is_c = [x for x in d1 if x[0] != "Union" and all(a in ("int", "str") for a in x[1:])]
@@ -1547,6 +1618,13 @@ def work_batch(item):
     return [work((s, tier)) for s in specs]
 
 
+def subterms(spec):
+    """Every constructor node of a type spec (leaves excluded)."""
+    if is_leaf(spec):
+        return []
+    return [spec] + [t for a in spec[1:] for t in subterms(a)]
+
+
 def leaves_of(spec):
     return {spec} if is_leaf(spec) else set().union(*[leaves_of(a) for a in spec[1:]])
 
@@ -1620,7 +1698,8 @@ def explore(ctx):
         cases_with_an_escaping_exception_counted_as_rejected=dict(sorted(escapes.items())),
         bounds={
             "type_depth": 4,
-            "leaves": ALL_LEAVES,
+            "leaves": ALL_LEAVES + LIGHT_LEAVES,
+            "tuple_arities": [0, 1, 2, 3],
             "top_level_alphabet": len(R_TOP) + (0 if ctx.quick else len(R_TOP_EXTRA)),
             "top_level_alphabet_depth_ge_2_quick": len(R_TOP2),
             "nested_alphabet": len(R_NEST),
@@ -1640,6 +1719,15 @@ def explore(ctx):
     for o in ("order", "sound", "complete", "member+", "member-", "element+", "element-", "kind+", "kind-"):
         ctx.require(oracles.get(o, 0) > 100, f"oracle branch '{o}' taken more than 100 times")
     ctx.require(per_depth.get(4, 0) > 0 and per_depth.get(3, 0) > 0, "types of depth 3 and 4 explored")
+    ctx.require(oracles.get("kind-:argv", 0) > 100, "oracle branch 'kind-' taken more than 100 times for JSON containers on argv")
+    arities = {len(t) - 1 for f in fams for t in subterms(f) if t[0] == "Tuple"}
+    ctx.require({0, 1, 2, 3} <= arities, "fixed-length tuples of arity 0, 1, 2 and 3 explored")
+    ctx.require(
+        sum(1 for f in fams if any(t == ["Tuple"] for t in subterms(f))) >= 15,
+        "the zero-length tuple explored alone, as a container element and as a Union member (>= 15 families)",
+    )
+    wide = [a for a in ALL_LEAVES if LEAF_KIND.get(a) == "restricted-str" and all(leaf_conforms(a, str(decode(x))) for x in R_NEST if not isinstance(x, str))]
+    ctx.require(wide and sum(1 for f in fams if leaves_of(f) & set(wide)) >= 30, "a restricted string whose pattern matches the text of every non-string alphabet value is explored (>= 30 families)")
     ctx.require(dtot.get("families", 0) >= 100 and dtot.get("cases", 0) > 5000, "declared-default axis: >= 100 families, > 5000 cases")
     ctx.require(dtot.get("absent", 0) >= 100, "declared-default axis: key-absent parses")
     ctx.require(
